@@ -88,6 +88,7 @@ const (
 	kEncSlash // route(inherits) reached by a target with an escaped slash (RawPath set)
 	kEncByte  // route(inherits) reached by a target with a needlessly escaped byte (RawPath set)
 	kQuery    // route(inherits) with a query string
+	kMounted  // route(inherits) whose handler delegates to a second router, passing its own writer
 	nKinds
 )
 
@@ -96,7 +97,7 @@ var rawTargets = map[int]string{kEncSlash: "/enc/a%2Fb", kEncByte: "/enc/%41lice
 
 func isRouteKind(k int) bool { return k <= kOwnNil || k >= kEncSlash }
 
-var kNames = [...]string{"route(inherits)", "route(own resolver ok)", "route(own resolver failing)", "route(resolver nil)", "redirect", "404", "405", "OPTIONS", "route(inherits) escaped slash", "route(inherits) escaped byte", "route(inherits) with query"}
+var kNames = [...]string{"route(inherits)", "route(own resolver ok)", "route(own resolver failing)", "route(resolver nil)", "redirect", "404", "405", "OPTIONS", "route(inherits) escaped slash", "route(inherits) escaped byte", "route(inherits) with query", "route(inherits) delegating to a mounted router"}
 
 // behaviours of the route handler
 type behaviour struct {
@@ -165,6 +166,13 @@ func newWorld(g int) *world {
 		must(f.Handle("GET", "/ownnil", h, fox.WithClientIPResolver(nil)))
 		must(f.Handle("GET", "/redir/", h, fox.WithRedirectTrailingSlash(true)))
 		must(f.Handle("GET", "/enc/{x}", h))
+		// a second router mounted below a route: it is handed the outer context's writer
+		inner, err := fox.New()
+		if err != nil {
+			panic(err)
+		}
+		must(inner.Handle("GET", "/mnt/{x}", h))
+		must(f.Handle("GET", "/mnt/{x}", func(c fox.Context) { inner.ServeHTTP(c.Writer(), c.Request()) }))
 		return f
 	}
 	w.f = build(true)
@@ -196,6 +204,8 @@ func request(kind int, remote string) (string, string) {
 		return "GET", "/enc/Alice"
 	case kQuery:
 		return "GET", "/plain"
+	case kMounted:
+		return "GET", "/mnt/v"
 	}
 	return "OPTIONS", "/plain"
 }
